@@ -141,16 +141,12 @@ class PinvMonitor(taps.Monitor):
 
 
 def setup(ctx):
-    H = taps.mod("menpo.transform.homogeneous.base")
-    for m, c in (("menpo.transform.homogeneous.base", "Homogeneous"), ("menpo.transform.homogeneous.base", "HomogFamilyAlignment"),
-                 ("menpo.transform.homogeneous.rotation", "Rotation"), ("menpo.transform.homogeneous.translation", "Translation"),
-                 ("menpo.transform.homogeneous.scale", "UniformScale"), ("menpo.transform.homogeneous.scale", "NonUniformScale"),
-                 ("menpo.transform.thinplatesplines", "ThinPlateSplines"), ("menpo.transform.piecewiseaffine.base", "AbstractPWA")):
-        taps.tap(ctx, getattr(taps.mod(m), c), "pseudoinverse", PinvMonitor())
+    owners = taps.tap_definers(ctx, "pseudoinverse", lambda c: PinvMonitor())
+    ctx.see("tapped_pseudoinverse_definers", sorted(c.__name__ for c in owners))
 
 
-KINDS2 = tx.HOMOG + ["ThinPlateSplines", "PiecewiseAffine", "PythonPWA", "tcoords", "PWA_trimesh_target"]
-KINDS3 = tx.HOMOG + ["tcoords3"]
+KINDS2 = tx.HOMOG + tx.EXTRA_HOMOG + ["ThinPlateSplines", "PiecewiseAffine", "PythonPWA", "tcoords", "PWA_trimesh_target"]
+KINDS3 = tx.HOMOG + tx.EXTRA_HOMOG + ["tcoords3"]
 
 
 def w_inverse(ctx, rng, i):
